@@ -413,6 +413,13 @@ pub fn run_check(
                             {
                                 stop_early.store(true, Ordering::Relaxed);
                             }
+                            // keep written-out histories for a handful of cases only (a thorough
+                            // batch has a million of them)
+                            let mut report = report;
+                            if report.violations.is_empty() && idx >= 16 && idx % 4099 != 0 {
+                                report.history = Value::Null;
+                                report.explicit_choices = None;
+                            }
                             slots.lock().unwrap().push(Slot { idx, report, wall_us });
                             // A tree on which dozens of cases already fail needs no further sampling
                             // (and hanging mutants would otherwise cost 10 s per remaining case).
@@ -509,7 +516,7 @@ pub fn run_check(
             faulty += 1;
         }
         busy_us += s.wall_us;
-        if samples.len() < 3 && !r.history.is_null() && (r.nontrivial || s.idx + 3 >= total) {
+        if samples.len() < 3 && !r.history.is_null() && r.nontrivial {
             samples.push(json!({"index": s.idx, "event_hash": format!("{:016x}", r.event_hash), "history": r.history}));
         }
         for v in &r.violations {
